@@ -11,3 +11,13 @@ package flags
 //@   modifies cf.m, elems(cf.m)
 //@   ensures [C14] [C02] @wf: wfMapping(cf.m)
 //@   ensures [C14] @kept: result != nil ==> cf.m == old(cf.m)
+//
+// Partition: the reporting window is the --from/--to window clipped to the journal's own period; it is
+// handed to date.NewPartition, which requires a start date other than the zero time (it panics otherwise).
+//@ func (*Multiperiod).Partition
+//@   requires mp != nil
+//@   modifies nothing
+//
+//@ func (IntervalFlags).Value
+//@   modifies nothing
+//@   loop 1 invariant 0 <= $i && $i <= 6
